@@ -49,6 +49,8 @@ fn init_scheduler() {
         let timer_event_handler = |c: Arc<AtomicOption<CoroutineImpl>>| {
             // just re-push the co to the visit list
             if let Some(mut co) = c.take() {
+                #[cfg(may_verif)]
+                crate::verif::note("timer.fire", crate::verif::co_vid(&co), 0);
                 // set the timeout result for the coroutine
                 set_co_para(&mut co, io::Error::new(io::ErrorKind::TimedOut, "timeout"));
                 // s.schedule_global(c);
@@ -196,6 +198,8 @@ impl Scheduler {
     #[cfg(feature = "work_steal")]
     pub fn schedule_with_id(&self, co: CoroutineImpl, id: usize) {
         let local = unsafe { &mut *self.local_queues.get_unchecked(id).get() };
+        #[cfg(may_verif)]
+        crate::verif::note("co.sched", crate::verif::co_vid(&co), id);
         local.push_back(co);
     }
 
@@ -213,6 +217,10 @@ impl Scheduler {
         let thread_id = NEXT_THREAD_ID
             .fetch_add(1, Ordering::Relaxed)
             .rem_euclid(self.workers);
+        #[cfg(may_verif)]
+        let thread_id = crate::verif::place(thread_id, self.workers);
+        #[cfg(may_verif)]
+        crate::verif::note("co.sched", crate::verif::co_vid(&co), thread_id);
         let global = unsafe { self.global_queues.get_unchecked(thread_id) };
         global.push(co);
         // signal one waiting thread if any
@@ -224,6 +232,8 @@ impl Scheduler {
     pub fn schedule_global_with_id(&self, co: CoroutineImpl, id: usize) {
         let thread_id = id.rem_euclid(self.workers);
         // println!("Scheduling to {thread_id}");
+        #[cfg(may_verif)]
+        crate::verif::note("co.sched", crate::verif::co_vid(&co), thread_id);
         let global = unsafe { self.global_queues.get_unchecked(thread_id) };
         global.push(co);
         // signal one waiting thread if any
